@@ -1,11 +1,155 @@
 /-
   Property C04 — CLI file-mode exit code equals the documented comparison semantics.
+  Only property theorems live here; helper lemmas are in FcProofs/Lemmas/Cli.lean.
+
+  Model:  `Fc.Cli.fileMode`      (FcModel/Cli.lean — `_parse_field_tolerances`, `FieldToleranceMap`,
+                                  `find_matches`, `_filter_matches`, `_select_predicate`, `_parse_status`,
+                                  `TestSuite.__bool__`, `_compare_field_data`, `_compare_field_sequences`,
+                                  `FileComparison.__call__`, `_run`, `_bool_to_exit_code`)
+  Spec:   `Fc.Cli.Spec.exitZero` (FcModel/Spec/C04.lean — declarative)
+  The numeric verdict of one field is the cluster-A model `Fc.defaultCheck` (C01 / C09).
 -/
-import FcModel.Spec.C04
+import FcProofs.Lemmas.Cli
+import FcProofs.Props.C01
 namespace Fc
 open Fc.Cli
 
-/-- the exit-code mapping read from the source: success is 0, failure is not -/
-theorem C04_exit_code_table : boolToExitCode true = 0 ∧ boolToExitCode false ≠ 0 := by decide
+/-- the pairs of data sets a scenario compares -/
+def Cli.Scenario.pairs (s : Scenario) : List PairData :=
+  match s.payload with
+  | .single p => [p]
+  | .seqs _ _ steps => steps
+  | .mixed => []
+
+/-- hypothesis of the C04 theorems: within each data set the field names are pairwise different
+    (true for every file the readers produce: tables and mesh files are keyed by name) -/
+def Cli.Scenario.NamesNodup (s : Scenario) : Prop :=
+  ∀ p ∈ s.pairs, (fnames p.res).Nodup ∧ (fnames p.ref).Nodup
+
+/-- **C04 (exit 0 iff the documented semantics hold).**  For every scenario — all option token
+    lists, all field sets on either side, all values, all read outcomes, single data sets and
+    sequences of any length — the modelled `fieldcompare file` exits with 0 exactly when the
+    declarative spec holds: tolerance arguments accepted, both files readable, same kind of data,
+    equal domains, every selected common field passes with the tolerance that applies to it,
+    one-sided fields only where ignored, and the sequence clause.  (`C04_spec_meaning`,
+    `C04_tolerance_that_applies` and `C04_field_formula` spell the right-hand side out.) -/
+theorem C04_exit_zero_iff (pf : String → FloatLit) (s : Scenario) (hn : s.NamesNodup) :
+    (fileMode pf s).1 = .exit 0 ↔ Spec.exitZero pf s = true := by
+  unfold fileMode Spec.exitZero
+  cases ho : mkOpts pf s with
+  | none =>
+    have := (mkOpts_none pf s).mp ho
+    simp only [this, Bool.false_and]
+    simp
+  | some o =>
+    have hval : (Spec.tokensValid pf false s.rtolToks && Spec.tokensValid pf true s.atolToks) = true := by
+      cases hv : (Spec.tokensValid pf false s.rtolToks && Spec.tokensValid pf true s.atolToks) with
+      | true => rfl
+      | false => have := (mkOpts_none pf s).mpr hv; rw [ho] at this; cases this
+    have hO := mkOpts_some pf s o ho
+    -- the body of the try: passes iff reads ok and the payload passes
+    have hrun : (runComparison o s).passes =
+        (s.readRes == .ok && s.readRef == .ok && Spec.payloadOk pf s s.payload) := by
+      have hio : (ReadOutcome.ioerror == ReadOutcome.ok) = false := by decide
+      have hexc : (ReadOutcome.exception == ReadOutcome.ok) = false := by decide
+      unfold runComparison
+      cases hr : s.readRes with
+      | ioerror => simp [CmpRes.passes, Suite.bool, hio, hexc, suiteIsTrue_table]
+      | exception => simp [CmpRes.passes, hio, hexc]
+      | ok =>
+        cases hf : s.readRef with
+        | ioerror => simp [CmpRes.passes, Suite.bool, hio, hexc, suiteIsTrue_table]
+        | exception => simp [CmpRes.passes, hio, hexc]
+        | ok =>
+          simp only [beq_self_eq_true, Bool.true_and]
+          cases hp : s.payload with
+          | mixed => simp [CmpRes.passes, Spec.payloadOk]
+          | single p =>
+            have hnp := hn p (by simp [Scenario.pairs, hp])
+            simp only [Spec.payloadOk]
+            exact compareFieldData_passes hO p hnp.1 hnp.2
+          | seqs n m steps =>
+            simp only [Spec.payloadOk, compareSequences]
+            have hsteps : ∀ p ∈ steps.take (min n m), (compareFieldData o p).passes = Spec.pairOk pf s p := by
+              intro p hpm
+              have hnp := hn p (by simp only [Scenario.pairs, hp]; exact List.mem_of_mem_take hpm)
+              exact compareFieldData_passes hO p hnp.1 hnp.2
+            by_cases hlen : n = m
+            · subst hlen
+              simp only [ne_eq, not_true_eq_false, false_and, if_false, beq_self_eq_true, Bool.true_or,
+                Bool.true_and]
+              have := (seqLoop_passes o (Spec.pairOk pf s) _ ⟨[], none⟩ (testsOk_nil _) hsteps).1
+              rw [this]
+              simp [Suite.bool]
+            · have hbeq : (n == m) = false := by simp [hlen]
+              rw [hO.ignSeq, hO.forceSeq]
+              cases hig : s.ignSeq with
+              | true =>
+                simp only [ne_eq, hlen, not_false_eq_true, Bool.not_true, Bool.false_eq_true, and_false,
+                  and_self, if_false, hbeq, Bool.or_true, Bool.true_and, false_and]
+                have := (seqLoop_passes o (Spec.pairOk pf s) _ ⟨[], none⟩ (testsOk_nil _) hsteps).1
+                rw [this]
+                simp [Suite.bool]
+              | false =>
+                simp only [hbeq, Bool.or_false, Bool.false_and]
+                cases hfo : s.forceSeq with
+                | false => simp [hlen, CmpRes.passes, Suite.bool]; decide
+                | true =>
+                  simp only [ne_eq, hlen, not_false_eq_true, Bool.not_false, Bool.not_true,
+                    Bool.false_eq_true, and_false, and_true, if_false, if_true, true_and]
+                  have := (seqLoop_passes o (Spec.pairOk pf s) _ ⟨[], some .failed⟩ (testsOk_nil _) hsteps).1
+                  rw [this]
+                  have : Suite.bool ⟨[], some .failed⟩ = false := by simp [Suite.bool]; decide
+                  simp [this]
+    simp only
+    rw [hval, Bool.true_and, ← hrun]
+    cases hc : runComparison o s with
+    | exc =>
+      simp only [CmpRes.passes]
+      have : boolToExitCode false ≠ 0 := by decide
+      simp [this]
+    | suite su =>
+      simp only [CmpRes.passes, ExitOutcome.exit.injEq]
+      exact boolToExitCode_zero su.bool
+
+/-- **C04 (what the spec says, in words of the property).**  One pair of data sets passes iff the
+    domains are equal, every field present on both sides and selected by the patterns passes the
+    comparison with its own tolerances, and fields present on one side only occur only under the
+    corresponding ignore flag. -/
+theorem C04_spec_meaning (pf : String → FloatLit) (s : Scenario) (p : PairData) :
+    Spec.pairOk pf s p = true ↔
+      Spec.domainsEqual pf s p.dom = true ∧
+      (∀ a ∈ p.res, ∀ b ∈ p.ref, b.name = a.name → Spec.selected s a.name = true → Spec.fieldOk pf s a b = true) ∧
+      ((∀ b ∈ p.ref, ∃ a ∈ p.res, a.name = b.name) ∨ s.ignSrc = true) ∧
+      ((∀ a ∈ p.res, ∃ b ∈ p.ref, b.name = a.name) ∨ s.ignRef = true) :=
+  pairOk_iff pf s p
+
+/-- **C04 (sequence clause).**  Two sequences pass iff the lengths agree or missing steps are
+    ignored, and every common step passes; `--force-sequence-comparison` never turns a length
+    mismatch into a pass. -/
+theorem C04_sequence_clause (pf : String → FloatLit) (s : Scenario) (n m : Nat) (steps : List PairData) :
+    Spec.payloadOk pf s (.seqs n m steps) = true ↔
+      (n = m ∨ s.ignSeq = true) ∧ ∀ p ∈ steps.take (min n m), Spec.pairOk pf s p = true := by
+  simp [Spec.payloadOk]
+
+/-- **C04 (the tolerance that applies to a field).**  The dictionary built by
+    `_parse_field_tolerances` answers, for *every* list of accepted arguments and every name, with
+    the value of the last `name:value` argument for that name; if there is none, with the value of
+    the last argument without a name; if there is none either, with nothing (→ the defaults:
+    relative = machine epsilon of the data type, absolute = 0). -/
+theorem C04_tolerance_that_applies (pf : String → FloatLit) (dyn : Bool) (l : List String)
+    (m : TolMap) (ex : Bool) (h : parseTols pf dyn (some l) = .ok m ex) (name : String) :
+    m.get name =
+      match Spec.lastValue pf dyn (Spec.isNamedFor name) l with
+      | some v => some v
+      | none => Spec.lastValue pf dyn Spec.isUnnamed l := by
+  rw [parseTols_get pf dyn (some l) m ex h name]
+  rfl
+
+/-- … and without the option every field gets the defaults -/
+theorem C04_tolerance_default (pf : String → FloatLit) (dyn : Bool) (m : TolMap) (ex : Bool)
+    (h : parseTols pf dyn none = .ok m ex) (name : String) : m.get name = none := by
+  rw [parseTols_get pf dyn none m ex h name]
+  rfl
 
 end Fc
